@@ -53,6 +53,7 @@ REQUIRED = [
     "C12_lazy_refines_eager",
     "C12_to_memory_neutral",
     "C12_handles",
+    "C12_read_handles",
     "C12_backend_reads_superset",
     "C12_h5_old_counterexample",
     "C12_old_getitem_leaks_counterexample",
@@ -799,7 +800,7 @@ def h5_known_sig(p):
 
 
 # ================================================================ C12.read
-READ_KINDS = G.KINDS + ["cfwrite", "cfwrite", "cfwrite", "seed"]
+READ_KINDS = G.KINDS + ["cfwrite", "cfwrite", "cfwrite", "seed", "external", "external", "external"]
 # (_make_indexed_contiguous_file is left out: realising it element by element through h5netcdf takes minutes)
 SEEDS = ["_make_contiguous_file", "_make_indexed_file", "_make_gathered_file",
          "_make_geometry_1_file", "_make_geometry_2_file", "_make_geometry_3_file", "_make_geometry_4_file",
@@ -878,6 +879,11 @@ def build_file(p):
                 fn(path)
             finally:
                 os.chdir(cwd)
+        elif p["kind"] == "external":
+            spec = G.gen_spec(rng, "external")
+            G.write_spec(spec, path)
+            for k, fs in enumerate(spec["ext_files"]):
+                G.write_spec(fs, ext_path(path, k))
         else:
             G.write_spec(G.gen_spec(rng, p["kind"]), path)
     except Exception as e:
@@ -885,6 +891,20 @@ def build_file(p):
             os.remove(path)
         return path, "not generated: " + repr(e)[:120]
     return path, None
+
+
+def ext_path(path, k):
+    return f"{path}.x{k}.nc"
+
+
+def external_plan(p, path):
+    """(list for cfdm.read(external=), model flags: one per distinct file, '1' = holds a named variable)"""
+    if p["kind"] != "external":
+        return None, None
+    spec = G.gen_spec(fw.rng_for(p["gseed"], "C12.read", "external"), "external")
+    lst = [ext_path(path, k) for k in spec["ext_list"]]
+    flags = "".join("1" if spec["ext_files"][k]["held"] else "0" for k in sorted(set(spec["ext_list"])))
+    return lst, flags or "-"
 
 
 def mk_read(p):
@@ -903,6 +923,14 @@ def mk_read(p):
             names = sorted(roles)
             line = f"C12.read be={be_name(p['be'])} vars=" + ";".join(
                 f"{k}:{enc_shape(roles[n][0])}:{roles[n][1]}" for k, n in enumerate(names))
+            _, flags = external_plan(p, path)
+            if flags is not None:
+                line += f" ext={flags}"
+                tags.append("read:external-files=" + str(0 if flags == "-" else len(flags)))
+                if "0" in flags:
+                    tags.append("read:external-file-without-wanted-variable")
+            if any(n.startswith("/") for n in names):
+                line += " grp=1"
             nontrivial = len(names) >= 2
             tags += sorted({"role:" + r for _, r in roles.values()})
     if err:
@@ -984,12 +1012,27 @@ def residency(d):
     return "M"
 
 
-def read_one(path, be, roles, mask=True, unpack=True):
+def open_paths(prefix):
+    out = []
+    for x in os.listdir("/proc/self/fd"):
+        try:
+            t = os.readlink(f"/proc/self/fd/{x}")
+        except OSError:
+            continue
+        if t.startswith(prefix):
+            out.append(os.path.basename(t))
+    return sorted(out)
+
+
+def read_one(path, be, roles, mask=True, unpack=True, external=None):
     """cfdm.read under one backend: fields, per-variable residency, fetch log, descriptor delta."""
     C = cfdm()
     LOG.clear()
     n0 = nfd()
-    fs = C.read(path, netcdf_backend=be, mask=mask, unpack=unpack)
+    if external is None:
+        fs = C.read(path, netcdf_backend=be, mask=mask, unpack=unpack)
+    else:
+        fs = C.read(path, netcdf_backend=be, mask=mask, unpack=unpack, external=external)
     fd = nfd() - n0
     log = {}
     for (fn, addr, ind, shp) in LOG:
@@ -1033,7 +1076,8 @@ def _impl_read(c):
         fields = {}
         for be in [p["be"]] + [b for b in (None, "netCDF4", "h5netcdf") if b != p["be"]]:
             try:
-                fs, res, log, fd = read_one(path, be, roles, p.get("mask", True), p.get("unpack", True))
+                ext_list, _ = external_plan(p, path)
+                fs, res, log, fd = read_one(path, be, roles, p.get("mask", True), p.get("unpack", True), ext_list)
             except Exception as e:
                 per[str(be)] = dict(error=exc_name(e) + " " + str(e)[:80])
                 if be == p["be"]:
@@ -1045,6 +1089,28 @@ def _impl_read(c):
                 continue
             fields[be] = fs
             per[str(be)] = dict(res=res, log={k: sorted(v) for k, v in log.items()}, fd=fd, n=len(fs))
+            if fd:
+                per[str(be)]["still_open"] = open_paths(path)
+            if ext_list is not None:
+                # every data access after a read with external files: descriptors back to the level before the read
+                acc = []
+                base_acc = nfd() - fd
+                for f in fs:
+                    todo = [("data of " + str(f.nc_get_variable(None)), f)]
+                    todo += [("cell measure " + str(m.nc_get_variable(None)), m)
+                             for m in f.cell_measures(todict=True).values() if m.has_data()]
+                    for what, x in todo:
+                        try:
+                            x.array
+                        except Exception as e:
+                            acc.append(f"{what}: array raised {exc_name(e)}")
+                            del e
+                        d = nfd() - base_acc
+                        if d:
+                            acc.append(f"after the {what} was accessed {d} descriptor(s) are open: {open_paths(path)}")
+                            break
+                per[str(be)]["acc"] = acc
+                LOG.clear()
             if be == p["be"]:
                 # a variable from which no returned construct was built has no observable residency
                 # … nor has one that was fetched in full while reading but is held by no reachable construct
@@ -1075,10 +1141,12 @@ def _impl_read(c):
             c.extra["fh"] = field_history(C, fields[p["be"]], p, roles)
         return out
     finally:
-        try:
-            os.remove(path)
-        except OSError:
-            pass
+        import glob
+        for q in [path] + glob.glob(path + ".x*.nc"):
+            try:
+                os.remove(q)
+            except OSError:
+                pass
 
 
 def fmt_elem_log(ents):
@@ -1423,7 +1491,8 @@ def oracle_read(c):
             fails.append(f"read with netcdf_backend={be} raised {r['error']}")
             continue
         if r["fd"] != 0:
-            fails.append(f"read with netcdf_backend={be} left {r['fd']} descriptor(s) open")
+            fails.append(f"read with netcdf_backend={be} left {r['fd']} descriptor(s) open {r.get('still_open', '')}")
+        fails += [f"read({be}) with external files: {a}" for a in r.get("acc", [])]
         inmem = set()
         for nv, st in r["res"].items():
             if st == "M" and nv in roles and roles[nv][1] not in ("scalarCoord", "scalarBounds"):
@@ -1507,9 +1576,13 @@ def impl_err(c):
             v.standard_name = "air_temperature"
             v.coordinates = "sc sc"
             v[...] = [1, 2, 3]
-            sc = ds.createVariable("sc", str, ())
+            # (a char array, not a 0-d variable-length string: since repair af409d0 the reader no longer rejects
+            #  this dataset and would fetch the 0-d vlen string twice, which crashes libnetcdf/HDF5 in this
+            #  environment - a library fault, reproduced with netCDF4-python alone)
+            ds.createDimension("strlen3", 3)
+            sc = ds.createVariable("sc", "S1", ("strlen3",))
             sc.long_name = "station"
-            sc[...] = "abc"
+            sc[...] = np.array(list("abc"), dtype="S1")
             ds.close()
             for be in (p["be"], None, "netCDF4", "h5netcdf"):
                 r = attempt(lambda: C.read(path, netcdf_backend=be))
@@ -1687,10 +1760,12 @@ def impl(c):
             chunks.append(b)
     _, status = os.waitpid(pid, 0)
     if c.stream == "C12.read":
-        try:
-            os.remove(read_path(c.payload))
-        except OSError:
-            pass
+        import glob
+        for q in [read_path(c.payload)] + glob.glob(read_path(c.payload) + ".x*.nc"):
+            try:
+                os.remove(q)
+            except OSError:
+                pass
     else:
         import glob
         for q in glob.glob(os.path.join(scratch(), f"[he]_*_{pid}.nc*")):
